@@ -17,7 +17,7 @@ RULE = ("one evaluation = one configuration round trip (field subset x generated
 ASSUMPTIONS = ["process death only (os._exit): power loss / fsync ordering is not observable here",
                "the untyped key=value format is compared as strings; values there contain no comment characters, '=' only inside, and no surrounding blanks",
                "text values are valid unicode without control characters (key=value) / arbitrary unicode (JSON)"]
-REQUIRED = ["second_saves", "second_save_ok", "read_before_save", "roundtrips", "route:save-profile", "route:save-dest", "route:str-file", "never_used_profiles", "binary_fields",
+REQUIRED = ["loads_through_stack_setProfile", "second_saves", "second_save_ok", "read_before_save", "roundtrips", "route:save-profile", "route:save-dest", "route:str-file", "never_used_profiles", "binary_fields",
             "crash_children", "crash_died_inside", "crash_outcome:old", "crash_outcome:new"]
 TIMEOUT = {"quick": 900, "thorough": 7200}
 
@@ -184,9 +184,18 @@ def roundtrip(acc, r, subset, fmt, route, loadpath, used_before, tag):
         acc.violation("save-raises:%s:%s:%s%s" % (route, type(e).__name__, (fn or ["?"])[0], "" if used_before or route not in ("save-profile", "profile-object", "save-profile-keyval") else ":never-used"),
                       "saving raised %r (route %s, format %s, profile %s)" % (e, route, fmt, "used before" if used_before else "never used"), w)
         return
+    def via_stack():
+        # the way an application names its profile: stack.setProfile(name); the layers read stack.getProp("profile").config
+        from yowsup.stacks import YowStack
+        st_ = YowStack((), reversed=False)
+        st_.setProfile(profile)
+        acc.count("loads_through_stack_setProfile")
+        return st_.getProp("profile").config
     try:
         if route == "profile-object":
-            back = YowProfile(profile).config
+            back = YowProfile(profile).config if r.random() < 0.5 else via_stack()
+        elif target == profile and r.random() < 0.3:
+            back = via_stack()
         else:
             back = cm.load(target)
     except Exception as e:  # noqa
@@ -218,7 +227,7 @@ def roundtrip(acc, r, subset, fmt, route, loadpath, used_before, tag):
                 cm.save(profile, cfg2, serialize_type=ConfigManager.TYPE_KEYVAL)
             else:
                 YowProfile(profile).write_config(cfg2)
-            back2 = YowProfile(profile).config if r.random() < 0.5 else cm.load(profile)
+            back2 = r.choice([lambda: YowProfile(profile).config, lambda: cm.load(profile), via_stack])()
         except Exception as e:  # noqa
             acc.violation("second-save-raises:%s:%s" % (route2, type(e).__name__), "saving the profile a second time (%s, %s after %s, %s) or loading it raised %r" % (route2, fmt2, route, fmt, e), w2)
             return
